@@ -1,6 +1,7 @@
 /-
   Dispatch of protocol operations to model functions (driver side of the correspondence).
 -/
+import Depccg.OpsConfig
 import Depccg.Wire
 import Depccg.Ja
 import Depccg.OpsSearch
@@ -153,6 +154,7 @@ def dispatch (st : State) (line : String) : State × String :=
     if op == "retrieve" then (st, OpsMore.retrieveOp ts) else
     if op == "gluetable" then (st, OpsMore.gluetableOp ts) else
     if op == "treescore" then (st, OpsLazy.treeScoreOp ts) else
+    if op == "read_params" then (st, OpsConfig.readParamsOp ts) else
     if op == "numfmt" then (st, OpsLazy.numFmtOp ts) else
     if op == "numfmt_fe" then (st, OpsLazy.numFmtFeOp ts) else
     if op == "cli" then
